@@ -194,6 +194,10 @@ func runC02(c *fw.Ctx) {
 
 	g, _ := c.InitRepo("c02", "sha1", true)
 	cases := append(aCommitCases(freeLines, extraLines, []int{0, 1, 2}), aTagCases(maxTagLines)...)
+	cases = append(cases, aLongLineCases()...)
+	cases = append(cases, aTrailingBlankCases()...)
+	c.Bound("long_line_cases", fmt.Sprintf("%d objects in git's own layout with one line of 5000 / 70000 bytes (message, unknown header, continuation line, gpgsig, identity name, inline tag signature)", len(aLongLineCases())))
+	c.Bound("sha256_repository", "every object of the grammar that is in git's own layout (64-digit ids): re-encode identity, decoded ids vs git")
 	objs := make([]aObj, len(cases))
 	for i, k := range cases {
 		objs[i] = aObj{k.Kind, k.Raw()}
@@ -442,8 +446,130 @@ func runC02(c *fw.Ctx) {
 		c.Class(fmt.Sprintf("b/%s/%s/%s/%s/%s", k.Kind, layout, strings.Join(k.Labels(), ","), k.Msg.Label+k.Shape, verdict))
 	}
 
+	// ---------------- (a'), (b') the objects in git's own layout, SHA-256 ids
+	c02Sha256(c, cases)
+
 	// ---------------- (c) structs
 	c02Structs(c, g)
+}
+
+// c02Sha256 stores the git-layout objects with 64-digit ids in a SHA-256
+// repository: Decode+Encode must reproduce the bytes, the decoded ids must be
+// the ones git reports (log %T %P, for-each-ref %(object)) and the decoded
+// Hash must be git's id of the object.
+func c02Sha256(c *fw.Ctx, all []aCase) {
+	var cases []aCase
+	for _, k := range all {
+		if aLayoutClass(k) == "" && k.Shape == "" {
+			cases = append(cases, k)
+		}
+	}
+	g, _ := c.InitRepo("c02-sha256", "sha256", true)
+	objs := make([]aObj, len(cases))
+	for i, k := range cases {
+		objs[i] = aObj{k.Kind, c03Raw(k, "sha256")}
+	}
+	ids := aStoreObjects(g, "sha256", objs)
+	var cIDs, tIDs []string
+	seen := map[string]bool{}
+	for i, k := range cases {
+		if seen[ids[i]] {
+			continue
+		}
+		seen[ids[i]] = true
+		if k.Kind == "commit" {
+			cIDs = append(cIDs, ids[i])
+		} else {
+			tIDs = append(tIDs, ids[i])
+		}
+	}
+	gitC := c02GitLog(g, cIDs)
+	gitT := c02GitTags(g, tIDs)
+	oh := plumbing.FromObjectFormat(c01FormatOf("sha256"))
+	c.ParDo(len(cases), 0, func(i int) {
+		k := cases[i]
+		raw := objs[i].Data
+		c.Eval()
+		fail := func(kind, got, want string) {
+			// one key per kind of difference and object type: the description of
+			// the object is in the message and the replay
+			aFail(c, "sha256: "+kind+": "+k.Kind+" in git's own layout", fmt.Sprintf("sha256 repository: %s for %s: go-git %s, git %s", kind, k.Desc(), fw.Q(got), fw.Q(want)),
+				map[string]any{"part": "sha256", "object": k.Desc(), "id": ids[i], "raw": string(raw), "go_git": got, "git": want})
+		}
+		verdict := "same"
+		var out []byte
+		var err error
+		p := aGuard(func() {
+			src := plumbing.NewMemoryObject(oh)
+			if k.Kind == "commit" {
+				src.SetType(plumbing.CommitObject)
+				src.Write(raw)
+				cm := &object.Commit{}
+				if err = cm.Decode(src); err != nil {
+					return
+				}
+				gc := gitC[ids[i]]
+				var ps []string
+				for _, p := range cm.ParentHashes {
+					ps = append(ps, p.String())
+				}
+				if cm.Hash.String() != ids[i] {
+					verdict = "fields"
+					fail("decoded commit Hash differs from git's id", cm.Hash.String(), ids[i])
+				}
+				if cm.TreeHash.String() != gc.Tree {
+					verdict = "fields"
+					fail("commit field tree differs from git", cm.TreeHash.String(), gc.Tree)
+				}
+				if strings.Join(ps, " ") != gc.Parents {
+					verdict = "fields"
+					fail("commit field parents differs from git", strings.Join(ps, " "), gc.Parents)
+				}
+				o := plumbing.NewMemoryObject(oh)
+				if err = cm.Encode(o); err != nil {
+					return
+				}
+				out = c02ReadAll(o)
+				if o.Hash().String() != ids[i] && bytes.Equal(out, raw) {
+					verdict = "fields"
+					fail("id of the re-encoded commit differs from git's", o.Hash().String(), ids[i])
+				}
+			} else {
+				src.SetType(plumbing.TagObject)
+				src.Write(raw)
+				tg := &object.Tag{}
+				if err = tg.Decode(src); err != nil {
+					return
+				}
+				gt := gitT[ids[i]]
+				if tg.Hash.String() != ids[i] {
+					verdict = "fields"
+					fail("decoded tag Hash differs from git's id", tg.Hash.String(), ids[i])
+				}
+				if tg.Target.String() != gt.Object {
+					verdict = "fields"
+					fail("tag field object differs from git", tg.Target.String(), gt.Object)
+				}
+				o := plumbing.NewMemoryObject(oh)
+				if err = tg.Encode(o); err != nil {
+					return
+				}
+				out = c02ReadAll(o)
+			}
+		})
+		switch {
+		case p != "":
+			verdict = "panic"
+			fail("Decode/Encode panics", p, "no panic")
+		case err != nil:
+			verdict = "error"
+			fail("Decode/Encode fails", err.Error(), "no error")
+		case !bytes.Equal(out, raw):
+			verdict = "differs"
+			fail("re-encode differs", string(out), string(raw))
+		}
+		c.Class(fmt.Sprintf("sha256/%s/%s/%s/%s", k.Kind, strings.Join(k.Labels(), ","), k.Msg.Label, verdict))
+	})
 }
 
 // c02KeyTail identifies the class of input a difference was seen on.
